@@ -294,9 +294,9 @@ func runCase(c TCase) (r result) {
 	rfixed := c.A.Cfg.RespPrefix.Len + c.A.Cfg.KeyLen + 11 + c.A.Cfg.KeyLen + TagSize
 	r.firstReadShort = !c.A.Cfg.AllowSeg && first < rfixed
 	if c.SegMode == "bytes" {
-		r.sc.Add(fmt.Sprintf("0 cseg %d 1", first), "ok")
+		r.sc.Add(fmt.Sprintf("0 cseg %d 1 -", first), "ok")
 	} else {
-		r.sc.Add(fmt.Sprintf("0 cseg %d", first), "ok")
+		r.sc.Add(fmt.Sprintf("0 cseg %d 0 -", first), "ok")
 	}
 	now := time.Now().Unix()
 	r.ops = RunOps(obsA.CC, c.Reads, c.A.Cfg, c.A.Target, true, true, true)
